@@ -31,8 +31,8 @@ ASSUMPTIONS = [
     "operation histories beyond the stated depth and clock values outside the grid are not covered",
 ]
 BOUNDS = {
-    "quick": "part1 depth<=5 on 3 tasks and depth<=4 on 4 tasks; part2 grid x 50 periods; part3 batches<=5",
-    "thorough": "part1 depth<=7 on 3 tasks and depth<=6 on 4 tasks; part2 grid x 50 periods x 3 bases; part3 batches<=6",
+    "quick": "part1 depth<=7 on 3 tasks (6 with callbacks that re-install a peer) and depth<=6 on 4 tasks; part2 grid x 50 periods; part3 batches<=5",
+    "thorough": "part1 depth<=9 on 3 tasks (8 with callbacks) and depth<=8 on 4 tasks (7 with callbacks); part2 grid x 50 periods x 3 bases; part3 batches<=6",
 }
 
 # ----------------------------------------------------------------------------- part 1
@@ -472,9 +472,9 @@ def run(tier, seed, deadline):
     acc.info["part3 cases"] = len(cases3)
 
     if tier == "quick":
-        plans = [(3, {}, 5), (3, {0: (1, 0)}, 4), (4, {}, 4)]
-    else:
         plans = [(3, {}, 7), (3, {0: (1, 0)}, 6), (3, {0: (1, 1), 1: (2, 0)}, 6), (4, {}, 6)]
+    else:
+        plans = [(3, {}, 9), (3, {0: (1, 0)}, 8), (3, {0: (1, 1), 1: (2, 0)}, 8), (4, {}, 8), (4, {0: (3, 0), 2: (1, 1)}, 7)]
     for k, (n, chain, depth) in enumerate(plans):
         # split the remaining budget between the remaining plans
         remaining = deadline - time.time()
